@@ -5,7 +5,7 @@ named in the property x the three factorisations; exactly one field of an otherw
 corrupted (wrong rank, length, tree structure, dtype, object type, inadmissible value).  Oracle:
 an exception at construction or first use -- never numbers; documented unsuitable pairings warn
 and name the remedy.  Every recipe also has a control entry (the uncorrupted call must work).
-Both tiers enumerate the table completely (277 entries).
+Both tiers enumerate the table completely (285 entries).
 """
 
 import warnings
@@ -31,9 +31,9 @@ def _f(y, *, t):
     return -y * (1.0 + 0.1 * y)
 
 
-def _base():
+def _base(d=D):
     vf = probdiffeq.ode(_f, jacobian=probdiffeq.jacobian_materialize())
-    u0 = jnp.asarray([0.5, 0.8, 0.1])
+    u0 = jnp.asarray([0.5, 0.8, 0.1][:d])
     tc, _ = probdiffeq.jetexpand_ode_unroll(num=Q)(vf, (u0,), t=0.0)
     return vf, u0, tc
 
@@ -224,13 +224,13 @@ def entries():
         add(f"{name}/loss_timeseries/posterior=smoothing_solution", "raise", mk_loss(lambda g, N: jnp.stack([g] * N), post="solution_full"), name)
 
         # ---------------- residual-based error estimate whose constraint shape differs from the state
-        def mk_err(name=name, lifted=True):
+        def mk_err(name=name, lifted=True, d=D, lift_by=1):
             def run():
-                vf, u0, tc = _base()
+                vf, u0, tc = _base(d)
                 ssm = _ssm(name)
-                tc4, _ = probdiffeq.jetexpand_ode_unroll(num=3)(vf, (u0,), t=0.0)
+                tc4, _ = probdiffeq.jetexpand_ode_unroll(num=2 + lift_by)(vf, (u0,), t=0.0)
                 prior = ssm.prior_wiener_integrated(tc4)
-                vfl = vf.jet_lift(lift_by=1) if lifted else vf
+                vfl = vf.jet_lift(lift_by=lift_by) if lifted else vf
                 c = ssm.constraint_ode_ts0(vfl)
                 solver = probdiffeq.solver(strategy=probdiffeq.strategy_filter(), constraint=c)
                 err = probdiffeq.error_residual_std(constraint=c)
@@ -241,6 +241,11 @@ def entries():
         add(f"{name}/error_residual_std/control", "control", mk_err(lifted=False), name)
         if name != "isotropic":  # the isotropic residual std is a single number, which the estimator documents as admissible
             add(f"{name}/error_residual_std/constraint_shape_differs", "raise", mk_err(lifted=True), name)
+            # a state with a single entry must not be mistaken for the (documented) single-number residual std
+            add(f"{name}/error_residual_std/control-d1", "control", mk_err(lifted=False, d=1), name)
+            for lb in (1, 2):
+                add(f"{name}/error_residual_std/constraint_shape_differs_d1_lift{lb}", "raise", mk_err(lifted=True, d=1, lift_by=lb), name)
+            add(f"{name}/error_residual_std/constraint_shape_differs_d2", "raise", mk_err(lifted=True, d=2), name)
 
         # ---------------- unsuitable strategy / routine pairings must warn and name the remedy
         def mk_warn(which, name=name):
